@@ -109,7 +109,7 @@ def system_case(draw, tier):
                                            "x", "100 ns, 25 \u00b0C, box in \u00c5", "[ system ] ; not a comment, 1.5"])),
             "scale": draw(st.one_of(st.just(0.5), st.just(1.0), st.floats(0.05, 2.0))),
             "align": draw(st.booleans()), "attach": draw(st.sampled_from(["add_end", "setattr", "from_files"])),
-            "restart": draw(st.integers(0, 3)) == 0,
+            "restart": draw(st.integers(0, 3)) == 0, "repeat": draw(st.sampled_from([None, None, "other-path", "same-path"])),
             "seed": draw(gen.SEEDS), "error_path": draw(st.sampled_from([None, None, None, "before-maps", "partial-maps",
                                                                            "no-complete"])),
             "system_route": draw(st.sampled_from(["from_files", "from_files", "incremental", "empty-then-add"]))}
@@ -258,6 +258,9 @@ def _run(case, species, specs, instances, gro, itp, out):
             _attach(man, case, nm, species)
         _expect_error(man.extrapolate_system, out, "partial-maps: a complete species has no exchange map yet")
         lib("maps", man.calculate_exchange_maps, case["scale"])
+    if case.get("repeat"):
+        # the same Manager writes more than one file (another path first, or the same path twice): every file is complete
+        lib("extrapolate", man.extrapolate_system, out if case["repeat"] == "same-path" else env.fresh_path(".gro"))
     lib("extrapolate", man.extrapolate_system, out)
     res = read_output(out)
     s = case["scale"]
@@ -327,7 +330,7 @@ def _run(case, species, specs, instances, gro, itp, out):
     big = any(len(c) >= 3 for nm, c, _ in exp_blocks)
     return {"nontrivial": interleaved and skipped and big,
             "classes": ["aligned" if case["align"] else "not-aligned", "box:" + case["box_kind"],
-                        "attach:" + case["attach"], "start:" + ("re-assigned" if case.get("restart") else "from-system"), "small-start" if small else "no-small-start",
+                        "attach:" + case["attach"], "start:" + ("re-assigned" if case.get("restart") else "from-system"), "written:" + (case.get("repeat") or "once"), "small-start" if small else "no-small-start",
                         "error:" + str(ep), "interleaved" if interleaved else "blocks",
                         "system:" + case.get("system_route", "from_files")],
             "sample": {"sequence": case["sequence"], "with_end": case["with_end"], "load": case["load"],
